@@ -597,6 +597,72 @@ func init() {
 		Outside:  "8 senders and bursts of 200; the clause 'at most one further transmission per goroutine already inside Send' needs a fair (FIFO) mutex and is not decided: under the plain sync.Mutex contract a newcomer may barge (see DESIGN 3.2) - decided instead: nothing is transmitted from the instant the server goroutine owns the lock until min(wait, 50 ms) later, pacing gap, every Send returns",
 		Assume:   []string{"sync.Mutex: any waiter or newcomer may win an unlocked mutex", "time.AfterFunc/Sleep are engine primitives on the virtual clock"},
 	})
+
+	c09 := func(thorough bool) []Inst {
+		var out []Inst
+		ks := []int64{1, 2, 3}
+		if thorough {
+			ks = []int64{1, 2, 3, 4}
+		}
+		for _, k := range ks {
+			out = append(out, Inst{Pkg: "knx", Fn: "HarnessC09ConnState", Args: []int64{k}})
+		}
+		for m := int64(0); m <= 5; m++ {
+			out = append(out, Inst{Pkg: "knx", Fn: "HarnessC09Dispatch", Args: []int64{m}})
+		}
+		ctx := 2
+		if thorough {
+			ctx = 3
+		}
+		for _, hb := range []int64{3, 7} {
+			out = append(out, Inst{Pkg: "knx", Fn: "HarnessC09Epoch", Args: []int64{hb, 0, 0}, Ctx: ctx, MaxSched: 20000})
+			for hm := int64(1); hm <= 4; hm++ {
+				for rc := int64(0); rc <= 3; rc++ {
+					out = append(out, Inst{Pkg: "knx", Fn: "HarnessC09Epoch", Args: []int64{hb, hm, rc}, Ctx: ctx, MaxSched: 20000})
+				}
+			}
+		}
+		return out
+	}
+	reg(&Spec{
+		ID:       "C09",
+		NoNative: true,
+		Quick:    func(l *loaded) []Inst { return c09(false) },
+		Thorough: func(l *loaded) []Inst { return c09(true) },
+		Covers:   []string{"C09.cs.answered", "C09.cs.failed", "C09.dispatch.disconnect_request", "C09.dispatch.disconnect_response", "C09.dispatch.ignored", "C09.epoch.healthy", "C09.epoch.failed", "C09.epoch.alive", "C09.epoch.terminated"},
+		Bounds:   "one real connection-state exchange from an arbitrary channel against K<=3 (thorough 4) environment events (silence, resend interval passes, status with all 256 values symbolic, channel closed); the real process() dispatch on one frame of each kind with a symbolic channel; bounded runs of the real serve() goroutine against a gateway goroutine over two epochs: heartbeat interval shorter (3.3 s) and longer (7.3 s) than the 5.1 s response timeout, heartbeat answered / unanswered / error status (symbolic) / foreign channel / disconnect request, reconnect accepted (new channel symbolic) / busy then accepted / refused (status symbolic) / unanswered; initial channel and send counter symbolic; context bound 2 (thorough 3)",
+		Outside:  "runs of 3..5 epochs (an epoch change is covered as such; serve() keeps no state across epochs but the Tunnel fields checked here); interval values other than the two configurations; real-time jitter",
+		Assume:   []string{"timers on the virtual clock; interval values chosen so that few timers expire at the same instant"},
+	})
+	c10 := func(thorough bool) []Inst {
+		var out []Inst
+		ctx := 2
+		if thorough {
+			ctx = 3
+		}
+		for sc := int64(0); sc <= 5; sc++ {
+			for _, closers := range []int64{1, 2} {
+				for rd := int64(0); rd <= 1; rd++ {
+					if !thorough && closers == 2 && rd == 0 && sc != 4 {
+						continue
+					}
+					out = append(out, Inst{Pkg: "knx", Fn: "HarnessC10", Args: []int64{sc, closers, rd}, Ctx: ctx, Race: true, MaxSched: 30000,
+						KnownRaces: []string{"Tunnel.control", "Tunnel.channel"}})
+				}
+			}
+		}
+		return out
+	}
+	reg(&Spec{
+		ID:       "C10",
+		NoNative: true,
+		Quick:    func(l *loaded) []Inst { return c10(false) },
+		Thorough: func(l *loaded) []Inst { return c10(true) },
+		Covers:   []string{"C10.end"},
+		Bounds:   "Close injected into an idle tunnel, a pending Send, a pending heartbeat exchange, a pending reconnect, parked inbound deliveries and a tunnel whose socket already died; 1 or 2 concurrent closers; with and without a reader; real serve/process/heartbeat/relay goroutines (<= 9 threads), context bound 2 (thorough 3), scheduler step bound 30000; happens-before race check (vector clocks over go, channel, mutex, WaitGroup, Once and timer edges) on every field of the Tunnel object along all explored schedules",
+		Outside:  "3..4 concurrent closers; memory-model effects below happens-before; the receiver goroutine of the real TunnelSocket (C16)",
+		Assume:   []string{"in-memory socket whose Close is counted", "sync.Once/WaitGroup/Mutex are engine primitives"},
+	})
 }
 
 func dptWireLen(m int64) int64 {
